@@ -614,8 +614,14 @@ pub fn cli_case(seed: u64, names: &[String], bin_path: &str) -> Option<(String, 
     if text.len() > 4000 {
         return None;
     }
-    let mut iset = InstructionSet::new();
-    iset.load();
+    // the library side runs behind the envelope; a program that leaves it is not handed to the real
+    // binary (which has no envelope and would really allocate)
+    let (mut iset, wnames) = simenv::wrapped_set();
+    let mut e = Envelope::standard();
+    e.e_events = u64::MAX;
+    e.e_bytes = 2 << 20;
+    simenv::begin(&EnvScript::quiet(seed), e, &wnames, None);
+    pushr::push::verif_seam::set_counter_override(None);
     let mut st = PushState::new();
     let ok = caught(|| {
         pushr::push::parser::PushParser::parse_program(&mut st, &iset, &text);
@@ -633,6 +639,10 @@ pub fn cli_case(seed: u64, names: &[String], bin_path: &str) -> Option<(String, 
             }
         }
     });
+    let core = simenv::end();
+    if core.left_envelope || core.env_skips > 0 {
+        return None;
+    }
     match ok {
         Ok(true) => Some((
             text,
